@@ -284,6 +284,83 @@ pub fn check_input(ctx: &mut Ctx, b: &[u8]) {
         }
     }
     ctx.class("latch:iterators");
+    let seed = crate::rng::fnv1a(&[b]);
+    latch_program(ctx, "to_array_iter", sonic_rs::to_array_iter(sl), seed);
+    latch_program(ctx, "to_object_iter", sonic_rs::to_object_iter(sl), seed);
+    latch_program(ctx, "to_array_iter", sonic_rs::to_array_iter(sl), seed.rotate_left(17));
+    latch_program(ctx, "to_object_iter", sonic_rs::to_object_iter(sl), seed.rotate_left(29));
+    latch_program(ctx, "stream<Value>", Deserializer::from_slice(sl).into_stream::<Value>(), seed.rotate_left(7));
+    latch_program(ctx, "stream<u8>", Deserializer::from_slice(sl).into_stream::<u8>(), seed.rotate_left(11));
+}
+
+/// "After yielding an error or the end it yields nothing more", through the adaptors too: a short
+/// program of `next` / `nth` / `skip` / `step_by` / `find` over ONE iterator (by reference); from the
+/// first `None` or `Some(Err)` on, every further call must give `None`.
+fn latch_program<T, I: Iterator<Item = sonic_rs::Result<T>>>(ctx: &mut Ctx, api: &str, mut it: I, seed: u64) {
+    let mut r = crate::rng::Rng::new(seed ^ 0x6c61746368);
+    let mut ended = false;
+    let mut log = String::new();
+    ctx.ops(1);
+    for _ in 0..8 {
+        let op = r.below(6);
+        let n = r.below(4) as usize;
+        let got: Option<bool> = match op {
+            0 => {
+                log.push_str("next;");
+                it.next().map(|x| x.is_ok())
+            }
+            1 => {
+                log.push_str(&format!("nth({});", n));
+                it.nth(n).map(|x| x.is_ok())
+            }
+            2 => {
+                log.push_str(&format!("skip({}).next;", n));
+                it.by_ref().skip(n).next().map(|x| x.is_ok())
+            }
+            3 => {
+                log.push_str(&format!("step_by({}).nth(1);", n + 1));
+                it.by_ref().step_by(n + 1).nth(1).map(|x| x.is_ok())
+            }
+            4 => {
+                // (up to 50 items; running out of the 50 is not an end)
+                log.push_str("find(is_err);");
+                let mut res = Some(true);
+                for _ in 0..50 {
+                    match it.next() {
+                        None => {
+                            res = None;
+                            break;
+                        }
+                        Some(Err(_)) => {
+                            res = Some(false);
+                            break;
+                        }
+                        Some(Ok(_)) => {}
+                    }
+                }
+                res
+            }
+            _ => {
+                log.push_str(&format!("take({}).count;", n));
+                let c = it.by_ref().take(n).count();
+                if c < n {
+                    None
+                } else {
+                    Some(true)
+                }
+            }
+        };
+        if ended && got.is_some() && !(op == 5 && n == 0) {
+            ctx.fail(&format!("iterator-reports-after-end:{}", api), format!("{} after [{}]: an item was yielded after the iterator had reported an error or the end", api, log));
+            return;
+        }
+        // adaptors 2..4 may consume an error on the way and return a later item or None: only
+        // None and a visible Err are certain ends
+        if matches!(got, None | Some(false)) {
+            ended = true;
+        }
+    }
+    ctx.class("latch:adaptor-programs");
 }
 
 /// re-render a document over several lines (LF / CRLF / blank lines) without changing tokens
@@ -369,6 +446,6 @@ impl Check for C20 {
         ctx.sample(&c.entry);
     }
     fn required_classes(&self, _b: &str, _t: Tier) -> Vec<&'static str> {
-        vec!["error:observed", "error:beyond-first-line", "error:position-less", "outcome:ok", "latch:stream", "latch:iterators", "mode:every-prefix-and-substitution"]
+        vec!["error:observed", "error:beyond-first-line", "error:position-less", "outcome:ok", "latch:stream", "latch:iterators", "latch:adaptor-programs", "mode:every-prefix-and-substitution"]
     }
 }
